@@ -4,6 +4,8 @@ import json
 import engine
 import suite_types
 import suite_join
+import suite_sort
+import suite_group
 
 
 def c04(rep, tier, seed):
@@ -50,7 +52,38 @@ def c11(rep, tier, seed):
     suite_join.trace(rep, tier, seed, ("cardinality", "errclass"), hashseed=seed % 1000)
 
 
+REL_ASSUME = [
+    "abstract key / value integers are mapped to concrete int/str/date/float/bool values by order- and equality-preserving palettes",
+    "mean and stdev are compared as exact rationals recovered from the float result (relative 1e-9)",
+]
+
+
+def c12(rep, tier, seed):
+    rep.assumptions += REL_ASSUME + ["output names of aggregate are C18's concern; dtypes C03/C04's"]
+    suite_group.mc(rep, tier)
+    seeds = (0, 1) if tier == "quick" else (0, 1, 2, 3, 5, 8)
+    suite_group.gen(rep, tier, suite_group.C12_CLAUSES, hashseeds=seeds)
+    suite_group.trace(rep, tier, seed, suite_group.C12_CLAUSES, ops=("aggregate", "reduce"))
+
+
+def c13(rep, tier, seed):
+    rep.assumptions += REL_ASSUME
+    suite_group.mc(rep, tier)
+    suite_group.gen(rep, tier, suite_group.C13_CLAUSES)
+    suite_group.trace(rep, tier, seed, suite_group.C13_CLAUSES, ops=("window",))
+
+
+def c14(rep, tier, seed):
+    rep.assumptions += REL_ASSUME + ["Vector.sort_by stability is observed through equal-but-distinguishable values (1 vs 1.0)"]
+    suite_sort.mc(rep, tier)
+    suite_sort.gen(rep, tier)
+    suite_sort.trace(rep, tier, seed)
+
+
 CHECKS = {
+    "C12": c12,
+    "C13": c13,
+    "C14": c14,
     "C09": c09,
     "C10": c10,
     "C11": c11,
